@@ -477,7 +477,7 @@ def synth_ff_text(rnd):
     used = set()
     for li in range(nlinks):
         kind = rnd.choice(['bond+', 'bond+', 'angle', 'dihedral', 'gt', 'star', 'nonedge', 'pattern', 'molmeta', 'replace',
-                           'remove', 'override', 'explicit-order', 'choice', 'geom', 'star-intra', 'gt-intra', 'same-order',
+                           'remove', 'remove', 'override', 'explicit-order', 'choice', 'geom', 'star-intra', 'gt-intra', 'same-order',
                            'three-orders', 'three-orders'])
         out.append('[ link ]')
         if kind == 'bond+':
@@ -525,7 +525,14 @@ def synth_ff_text(rnd):
         elif kind == 'replace':
             out += ['[ atoms ]', 'A {"replace": {"atype": "TX%d", "marker": %d}}' % (li, li), 'B {}', '[ edges ]', 'A B']
         elif kind == 'remove':
-            out += ['[ !bonds ]', 'A B', '[ edges ]', 'A B']
+            if rnd.random() < 0.5:
+                # several removals of one type in one link: some of them usually find nothing at a given placement (the rest must
+                # still take effect), and overlapping placements remove each other's targets
+                lines_ = rnd.sample(['A ++A', 'A +A', 'A B', '+A ++A', 'A +B'], rnd.randint(2, 3))
+                out += ['[ !bonds ]'] + lines_ + ['[ edges ]', 'A +A', '+A ++A'] + (['A B'] if 'A B' in lines_ else []) + \
+                    (['+A +B'] if 'A +B' in lines_ else [])
+            else:
+                out += ['[ !bonds ]', 'A B', '[ edges ]', 'A B']
             if rnd.random() < 0.5:
                 out += ['[ bonds ]', 'A B 1 0.29 %d' % rnd.choice([3000, 4000])]
         elif kind == 'override':
